@@ -9,7 +9,7 @@
                              predicts a hazard for this call in this state and the observed class of the report is
                              compatible with it, the label is the model's defect class (e.g. "crash@realTime_NoteOn
                              channel=16", "alloc@setNumChips -1", "overflow@dmx-volume cc7=255"); otherwise it is
-                             generic: "<kind>@<library call site> <call>" (a defect the model does not contain).
+                             generic: "<kind>@<library call site> <innermost library function>" (a defect the model does not contain).
      hang@<call>             killed by the CPU-time limit Tmo(S, ev) = 2 s + cost allowance computed by the model
      retval@<call> <class>   a call documented to fail returned something else than its documented error value
      overflow@buffer <call>  a fence of an exactly sized argument buffer was overwritten (non-ASan builds)
@@ -57,7 +57,7 @@ CrashLabel(St, ev) ==
       at == IF Has(ev, "atclose") THEN " (in the final opn2_close)" ELSE ""
   IN IF cr.cls = "hang" THEN "hang@" \o ev.e \o at
      ELSE IF js # {} /\ ~Has(ev, "atclose") THEN hz[CHOOSE j \in js : \A i \in js : j <= i].w
-     ELSE GenKind(cr.cls) \o "@" \o (IF cr.fn # "" THEN cr.fn ELSE ev.e) \o " " \o ev.e \o at
+     ELSE GenKind(cr.cls) \o "@" \o (IF cr.fn # "" THEN cr.fn \o " " \o cr.topfn ELSE ev.e \o " ?") \o at
 CrashDetail(ev) == ToString([cls |-> ev.crash.cls, sig |-> ev.crash.sig, what |-> ev.crash.what, site |-> ev.crash.fn, file |-> ev.crash.file,
                              line |-> ev.crash.line, top |-> ev.crash.top, args |-> Args(ev)])
 
@@ -79,7 +79,8 @@ StepCall(ev) ==
       hz == Hazards(S, ev)
       anySure == \E j \in DOMAIN hz : hz[j].sure
       allow == IF Has(ev, "tmo") THEN ev.tmo ELSE 2
-      hangOk == crashed /\ ev.crash.cls = "hang" /\ allow < Tmo(S, ev)          \* the harness was given less time than the model allows
+      tmo == Max(Tmo(S, ev), RM!Tmo(SR, ev))
+      hangOk == crashed /\ ev.crash.cls = "hang" /\ allow < tmo                 \* the harness was given less time than the model allows
       fCrash == IF crashed /\ ~hangOk THEN {CrashLabel(S, ev)} ELSE {}
       dk == DocFail(S, ev)
       fDoc == IF ~crashed /\ dk # "none" /\ Has(ev, "r") /\ ~DocHolds(dk, ev.r) THEN {"retval@" \o ev.e \o " " \o FailClass(S, ev)} ELSE {}
@@ -101,7 +102,7 @@ StepCall(ev) ==
       dRet2 == IF ~crashed /\ pr2 # NoPred /\ ev.r2 # pr2 THEN {<<"ret2", pr2>>} ELSE {}
       dHz == IF ~crashed /\ anySure /\ ~okR THEN {<<"sure hazard did not materialise", hz[1].w>>} ELSE {}
       dIt == IF ~crashed /\ ev.e = "iterBanks" /\ ~NullDev(S, ev) /\ ev.cnt # Min(Cardinality(S.banks), ev.max) THEN {<<"banks", Cardinality(S.banks)>>} ELSE {}
-      dTmo == IF hangOk THEN {<<"allowance below the model's", Tmo(S, ev)>>} ELSE {}
+      dTmo == IF hangOk THEN {<<"allowance below the model's", tmo>>} ELSE {}
       d == dRet \cup dRet2 \cup dHz \cup dIt \cup dTmo
       isBuf == ev.e \in {"play", "playFormat", "generate", "generateFormat", "rt_systemExclusive", "describeChannels", "openBankData", "openData"}
       fk == FnKey(ev.e)
@@ -116,7 +117,7 @@ StepCall(ev) ==
                   !.refined = @ + 1, !.drifted = @ + B2N(d # {}),
                   !.hazard_calls = @ + B2N(hz # << >>), !.hazard_sure = @ + B2N(anySure),
                   !.hazard_confirmed = @ + B2N(hz # << >> /\ crashed), !.hazard_unconfirmed = @ + B2N(anySure /\ ~crashed),
-                  !.nulldev = @ + B2N(NullDev(S, ev)), !.buffers = @ + B2N(isBuf /\ ~crashed), !.hangchk = @ + B2N(Tmo(S, ev) > 2),
+                  !.nulldev = @ + B2N(NullDev(S, ev)), !.buffers = @ + B2N(isBuf /\ ~crashed), !.hangchk = @ + B2N(tmo > 2),
                   !.asis = @ + B2N(okA \/ okC), !.fixed = @ + B2N(okR),
                   ![IF fk \in CntKeys THEN fk ELSE "recs"] = @ + B2N(fk \in CntKeys)]
 
